@@ -5,11 +5,13 @@ package cache
 // C13 — placement through cache.New (cluster): same oracle as for kv.New.
 
 import (
+	"context"
 	"errors"
 	"fmt"
 	"sort"
 	"strconv"
 	"testing"
+	"time"
 
 	"github.com/alicebob/miniredis/v2"
 	"github.com/gotid/god/lib/store/redis"
@@ -39,12 +41,13 @@ func c13CachePredict(addrs []string, weights []int, key string) int {
 }
 
 func TestVerifC13CachePlacement(t *testing.T) {
-	m := vk.New(t, "C13", "cache.New over 2-4 miniredis nodes with weights from {0,10,50,100}: 120 keys set through the cluster cache, node holding each key compared with the reference ring; Get and Del go to the same node")
+	m := vk.New(t, "C13", "cache.New over 2-4 miniredis nodes with weights from {0,10,50,100}: 120 keys stored through all eight storing entry points in turn (Set/SetWithExpire/Take/TakeWithExpire and their Ctx forms), node holding each key compared with the reference ring; Get/GetCtx/Take/TakeWithExpireCtx read it back without fetching, Del/DelCtx remove it from that node")
 	defer m.Done()
 	n := vk.N(25, 400)
 	r := m.Rand("cache")
 	errNF := errors.New("c13 not found")
 	var placed int64
+	entry := map[string]int64{}
 	for idx := 1; idx <= n; idx++ {
 		if !m.Only(idx) {
 			continue
@@ -73,8 +76,31 @@ func TestVerifC13CachePlacement(t *testing.T) {
 		c := New(conf, syncx.NewSingleFlight(), NewStat("c13"), errNF)
 		for k := 0; k < 120; k++ {
 			key := fmt.Sprintf("c13c-%d-%d", idx, k)
-			if err := c.Set(key, k); err != nil {
-				m.Violate("C13:cache-set-error", desc, "Set(%q): %v", key, err)
+			// every entry point that stores a key must choose the node from the KEY: rotate through all of them
+			var err error
+			via := []string{"Set", "SetCtx", "SetWithExpire", "SetWithExpireCtx", "Take", "TakeCtx", "TakeWithExpire", "TakeWithExpireCtx"}[k%8]
+			var dst int
+			switch via {
+			case "Set":
+				err = c.Set(key, k)
+			case "SetCtx":
+				err = c.SetCtx(context.Background(), key, k)
+			case "SetWithExpire":
+				err = c.SetWithExpire(key, k, time.Hour)
+			case "SetWithExpireCtx":
+				err = c.SetWithExpireCtx(context.Background(), key, k, time.Hour)
+			case "Take":
+				err = c.Take(&dst, key, func(v any) error { *v.(*int) = k; return nil })
+			case "TakeCtx":
+				err = c.TakeCtx(context.Background(), &dst, key, func(v any) error { *v.(*int) = k; return nil })
+			case "TakeWithExpire":
+				err = c.TakeWithExpire(&dst, key, func(v any, _ time.Duration) error { *v.(*int) = k; return nil })
+			default:
+				err = c.TakeWithExpireCtx(context.Background(), &dst, key, func(v any, _ time.Duration) error { *v.(*int) = k; return nil })
+			}
+			entry[via]++
+			if err != nil {
+				m.Violate("C13:cache-set-error", desc, "%s(%q): %v", via, key, err)
 				break
 			}
 			want := c13CachePredict(addrs, weights, key)
@@ -85,16 +111,33 @@ func TestVerifC13CachePlacement(t *testing.T) {
 				}
 			}
 			if len(holders) != 1 || holders[0] != want {
-				m.Violate("C13:cache-key-on-unexpected-node", desc, "key %q is held by nodes %v, reference ring predicts node %d", key, holders, want)
+				m.Violate("C13:cache-key-on-unexpected-node", desc, "key %q stored through %s is held by nodes %v, reference ring predicts node %d", key, via, holders, want)
 				break
 			}
 			var back int
-			if err := c.Get(key, &back); err != nil || back != k {
-				m.Violate("C13:cache-read-back-mismatch", desc, "Get(%q)=(%d,%v)", key, back, err)
+			fetched := false
+			rvia := []string{"Get", "GetCtx", "Take", "TakeWithExpireCtx"}[(k/8)%4]
+			switch rvia {
+			case "Get":
+				err = c.Get(key, &back)
+			case "GetCtx":
+				err = c.GetCtx(context.Background(), key, &back)
+			case "Take":
+				err = c.Take(&back, key, func(v any) error { fetched = true; *v.(*int) = -1; return nil })
+			default:
+				err = c.TakeWithExpireCtx(context.Background(), &back, key, func(v any, _ time.Duration) error { fetched = true; *v.(*int) = -1; return nil })
+			}
+			if err != nil || back != k || fetched {
+				m.Violate("C13:cache-read-back-mismatch", desc, "stored through %s, %s(%q)=(%d,%v) fetched=%v: the read went to another node than the write", via, rvia, key, back, err, fetched)
 				break
 			}
 			if k%3 == 0 {
-				if err := c.Del(key); err != nil || servers[want].Exists(key) {
+				if k%2 == 0 {
+					err = c.Del(key)
+				} else {
+					err = c.DelCtx(context.Background(), key, fmt.Sprintf("c13c-absent-%d", k))
+				}
+				if err != nil || servers[want].Exists(key) {
 					m.Violate("C13:cache-del-wrong-node", desc, "Del(%q) err=%v, still on node %d: %v", key, err, want, servers[want].Exists(key))
 					break
 				}
@@ -110,4 +153,7 @@ func TestVerifC13CachePlacement(t *testing.T) {
 		}
 	}
 	m.Count("keys_placed_and_checked", placed)
+	for k, v := range entry {
+		m.Count("stored_through_"+k, v)
+	}
 }
